@@ -274,6 +274,18 @@ def check_single(sc, tr, rc):
     drained = kv["stop"] == "drain" and stop_call is not None and stop_call <= run_ret
     if kv["stop"] == "drain" and not drained:
         C["drain_cut_by_end_time"] = 1
+    if drained:
+        # the drain deadline is a bounded-PROGRESS bound, not a speed limit: when the loop was still delivering (or producers were
+        # still being admitted) shortly before the stop, the machine was slow, and the scenario says nothing about lost values -
+        # it is counted and not judged. A lost wake-up shows as a loop that sat idle for >= 1.5 s with accepted values pending.
+        progress = [d[2] for d in tr.deliveries if d[2] <= stop_call] + [s[4] for s in accepted.values() if s[4] <= stop_call]
+        if progress and (stop_call - max(progress)) < 1.5e9:
+            left = [i for i in accepted if i not in {x for d in tr.deliveries for x in d[4]}]
+            if left and policy != "conflate":
+                C["drain_deadline_hit_while_still_delivering"] = 1
+                drained = False
+            elif policy == "conflate":
+                C["conflating_drain_stopped_while_still_active"] = 1
     if drained and policy != "conflate":
         missing = [i for i in accepted if i not in seen]
         if missing:
